@@ -95,20 +95,18 @@ func (core *JApiCore) collectPathVariables(d *directive.Directive) *jerr.JApiErr
 		return d.KeywordError(jerr.ParentNotFound)
 	}
 
-	parentDirective := *d.Parent
-
 	if len(core.rawPathVariables) != 0 {
-		prevParent := core.rawPathVariables[len(core.rawPathVariables)-1].parentDirective
-		if prevParent.Equal(parentDirective) {
+		prevParent := core.rawPathVariables[len(core.rawPathVariables)-1].parent
+		if prevParent == d.Parent {
 			return d.KeywordError(jerr.NotUniqueDirective)
 		}
 	}
 
 	core.rawPathVariables = append(core.rawPathVariables, rawPathVariable{
-		pathDirective:   *d,
-		parentDirective: parentDirective,
-		schema:          s.JSchema,
-		parameters:      pp,
+		pathDirective: *d,
+		parent:        d.Parent,
+		schema:        s.JSchema,
+		parameters:    pp,
 	})
 
 	return nil
